@@ -416,6 +416,54 @@ class Program(object):
                     item = strip_casts(item["x"])
                 if isinstance(item, dict) and item.get("k") == "fn" and idx < len(fields):
                     slots[(rec, fields[idx]["f"])].add(item["n"])
+        # x->f = <parameter k of G>  : the slot may hold whatever any caller passes as
+        # argument k of G (callback registration: cleanups, work items, deleters, savers)
+        passed = defaultdict(set)          # (G file, G name, k) -> function names passed
+
+        def gkey(caller, name):
+            g = self.resolve(name, caller)
+            return (g.file, g.name) if g is not None else ("<extern>", name)
+        for f in self.all_functions:
+            for bid, i, e in f.events("call"):
+                if "f" not in e:
+                    continue
+                for k, a in enumerate(e.get("a", [])):
+                    a = strip_casts(a)
+                    if isinstance(a, dict) and a.get("k") == "un" and a.get("op") == "&":
+                        a = strip_casts(a["x"])
+                    if isinstance(a, dict) and a.get("k") == "fn":
+                        passed[gkey(f, e["f"]) + (k,)].add(a["n"])
+        # parameters forwarded to another registering function
+        changed = True
+        rounds = 0
+        while changed and rounds < 6:
+            changed = False
+            rounds += 1
+            for f in self.all_functions:
+                pn = [p["n"] for p in f.params]
+                for bid, i, e in f.events("call"):
+                    if "f" not in e:
+                        continue
+                    for k, a in enumerate(e.get("a", [])):
+                        a = strip_casts(a)
+                        if isinstance(a, dict) and a.get("k") == "var" and a.get("kind") == "param" and a["n"] in pn:
+                            src = passed.get((f.file, f.name, pn.index(a["n"])), set())
+                            if not src:
+                                continue
+                            dst = passed[gkey(f, e["f"]) + (k,)]
+                            if not src <= dst:
+                                dst |= src
+                                changed = True
+        for f in self.all_functions:
+            pn = [p["n"] for p in f.params]
+            for bid, i, e in f.events("asg"):
+                lhs = strip_casts(e["lhs"])
+                rhs = strip_casts(e["rhs"])
+                if (isinstance(lhs, dict) and lhs.get("k") == "mem" and isinstance(rhs, dict)
+                        and rhs.get("k") == "var" and rhs.get("kind") == "param" and rhs["n"] in pn):
+                    for n in passed.get((f.file, f.name, pn.index(rhs["n"])), ()):
+                        slots[(lhs["s"], lhs["f"])].add(n)
+        self.passed = passed
         self._slots = slots
         return slots
 
@@ -435,6 +483,15 @@ class Program(object):
         if isinstance(fp, dict) and fp.get("k") == "un" and fp.get("op") == "*":
             fp = strip_casts(fp["x"])
         out = []
+        if isinstance(fp, dict) and fp.get("k") == "var" and fp.get("kind") == "param":
+            self.slots()
+            pn = [p["n"] for p in f.params]
+            if fp["n"] in pn:
+                for n in sorted(self.passed.get((f.file, f.name, pn.index(fp["n"])), ())):
+                    g = self.resolve(n, f)
+                    if g is not None:
+                        out.append(g)
+            return out
         if isinstance(fp, dict) and fp.get("k") == "mem":
             s = fp["s"]
             names = set(self.slots().get((s, fp["f"]), ()))
